@@ -546,7 +546,7 @@ def r_sortshape(f):
                             continue
                         pty = hb.locals[pos[0] + 1]
                         adv2 = [fn2["name"] for _, t2, fn2 in hb.calls() if fn2 and (fn2.get("trait") or "").endswith("Iterator") and (fn2.get("self_ty") == pty or "RowsMut" in (fn2.get("self_ty") or ""))]
-                        swaps2 = [1 for _, t2, fn2 in hb.calls() if fn2 and fn2["path"] in ("core::ptr::swap", "core::slice::<impl [T]>::swap")]
+                        swaps2 = [1 for hb2 in [hb] + hb.closures() for _, t2, fn2 in hb2.calls() if fn2 and fn2["path"] in ("core::ptr::swap", "core::slice::<impl [T]>::swap")]
                         okk = set(adv2) <= {"next", "into_iter"} and adv2.count("next") == 1 and bool(swaps2)
                         why = "rows_mut() cursor handed to %s, advanced there by %s, swaps: %d" % (hb.ident, sorted(set(adv2)), len(swaps2))
             R.inst(b.ident, "s4 swap trace applied to every row: " + why, okk)
